@@ -188,9 +188,10 @@ def c022(ctx):
         ctx.must_pass(R, f, "BufWriter::flush", fl)
         # the sync must be applied to the builder's own file
         for pt in sy:
-            ctx.check(R, f, "sync-recv", "output" in K.arg_field_names(f, pt, 0),
-                      "sync_all receiver is the builder's output file",
-                      "sync_all is not applied to self.output", pt=pt)
+            for g_, q in ctx.direct_sites(f, pt):
+                ctx.check(R, g_, "sync-recv", "output" in K.arg_field_names(g_, q, 0),
+                          "sync_all receiver is the builder's output file",
+                          "sync_all is not applied to self.output", pt=q)
     for name in ("seal", "get_builder", "split_hint"):
         g = ctx.fn(R, "sst::SstMultiBuilder::%s" % name) if name != "seal" else ctx.fn(R, "<sst::SstMultiBuilder as sst::Builder>::seal")
         if g:
